@@ -17,6 +17,7 @@ import (
 	"os"
 	"path/filepath"
 	"strings"
+	"sync/atomic"
 	"testing"
 	"time"
 
@@ -215,11 +216,25 @@ type c19Server struct {
 	peers  []string
 	leader string
 	state  string
+	// once: the peer answers its first status request and is gone afterwards (it went down, or
+	// was restarted, right after it was asked)
+	once     bool
+	requests int32
 }
 
 func c19NewServer(offset, pre, post time.Duration) *c19Server {
 	p := &c19Server{offset: offset, pre: pre, post: post, state: "Follower"}
 	p.srv = httptest.NewTLSServer(http.HandlerFunc(func(w http.ResponseWriter, r *http.Request) {
+		if n := atomic.AddInt32(&p.requests, 1); p.once && n > 1 {
+			if hj, ok := w.(http.Hijacker); ok {
+				if c, _, err := hj.Hijack(); err == nil {
+					c.Close()
+					return
+				}
+			}
+			w.WriteHeader(http.StatusServiceUnavailable)
+			return
+		}
 		time.Sleep(p.pre)
 		now := time.Now().Add(p.offset)
 		time.Sleep(p.post)
@@ -315,6 +330,14 @@ func TestVerifC19Real(t *testing.T) {
 			jt.state = []string{"Follower", "Leader"}[rng.Intn(2)]
 			err = SynchronizedWithMasterAndNetwork(self, jt.addr(), "secret")
 		} else {
+			// on the restart path every other peer answers only the first time it is asked
+			for i, p := range peers {
+				p.once = (k+i)%2 == 0
+				if p.once {
+					rep.Obs("real.peers-answering-only-once", 1)
+				}
+			}
+			t0 = time.Now()
 			err = SynchronizedWithNetwork(self, list, "secret")
 		}
 		elapsed := time.Since(t0)
